@@ -31,7 +31,7 @@ EXHAUSTIVE = {"quick": False, "thorough": False}
 def plan(tier, seed):
     if tier == "quick":
         return [{"random": 1500, "eml": 150, "max": 60}]
-    return [{"random": 6000, "eml": 500, "max": 400, "salt": i} for i in range(16)]
+    return [{"random": 10000, "eml": 1000, "max": 400, "salt": i} for i in range(16)]
 
 
 _UPGRADE = None
